@@ -128,6 +128,24 @@ impl C19 {
                 )
                 .unwrap();
         }
+        if h.idx % 6 == 3 {
+            // a large legacy table: several owners with 7-12 spenders each (spenders outside the actor pool),
+            // more entries than any page or batch size
+            let owners = h.rng.range(3, 6) as usize;
+            let per = h.rng.range(7, 12) as usize;
+            for o in p.actors.iter().take(owners) {
+                for j in 0..per {
+                    let s = crate::direct::mk_addr(&format!("spender-{j:02}"));
+                    let amt = 1 + h.rng.below(900) as u128;
+                    let exp = if h.rng.chance(1, 4) { Exp::H(height + 1 + h.rng.below(50)) } else { Exp::Never };
+                    cw20_base::state::ALLOWANCES
+                        .save(&mut c.w.store, (&Addr::unchecked(o), &Addr::unchecked(&s)), &AllowanceResponse { allowance: Uint128::new(amt), expires: exp.to() })
+                        .unwrap();
+                }
+            }
+            h.out.count("legacy_tables_with_more_than_30_allowances");
+            h.note(format!("plus {owners} owners x {per} outside spenders"));
+        }
         h.note(format!("legacy storage seeded: version {v}, up to {n} allowances, no spender table"));
         // sanity of the seeding itself: the spender view is empty before migration
         let r = c.w.tx(|deps, env| cw20_base::contract::migrate(deps, env, MigrateMsg {}));
@@ -200,6 +218,7 @@ impl Monitor for C19 {
             "removals_by_decrease",
             "increases_ok",
             "migrations_run",
+            "legacy_tables_with_more_than_30_allowances",
             "zero_allowance_entries_listed_consistently",
         ]
     }
